@@ -817,3 +817,53 @@ def undo_method_renames(trees: Dict[str, ast.Module]) -> List[str]:
                 if isinstance(n, ast.Attribute) and n.attr in renames:
                     n.attr = renames[n.attr]
     return done
+
+
+def unalias_fresh_containers(tree: ast.AST) -> int:
+    """Normal form: `x = set()` (or [] / {} / list() / dict()) immediately followed by `T[k] = x` (or `o.a = x`), x bound once: the local is
+    just a handle on the object that was filed away - later uses of x are presented as `T[k]`, the pair as `T[k] = set()`."""
+    n = 0
+    for fn in [f for f in ast.walk(tree) if isinstance(f, (ast.FunctionDef, ast.AsyncFunctionDef))]:
+        own = list(_own_nodes(fn))
+        stores: Dict[str, int] = {}
+        for x in own:
+            if isinstance(x, ast.Name) and not isinstance(x.ctx, ast.Load):
+                stores[x.id] = stores.get(x.id, 0) + 1
+        nested_loads: Set[str] = set()
+        for x in ast.walk(fn):
+            if x is not fn and isinstance(x, (ast.FunctionDef, ast.AsyncFunctionDef, ast.Lambda)):
+                nested_loads |= {y.id for y in ast.walk(x) if isinstance(y, ast.Name)}
+        for lst in _stmt_lists(fn):
+            i = 0
+            while i + 1 < len(lst):
+                a, b = lst[i], lst[i + 1]
+                ok = (isinstance(a, ast.Assign) and len(a.targets) == 1 and isinstance(a.targets[0], ast.Name)
+                      and (isinstance(a.value, (ast.List, ast.Dict, ast.Set)) and not getattr(a.value, "elts", getattr(a.value, "keys", []))
+                           or isinstance(a.value, ast.Call) and isinstance(a.value.func, ast.Name) and a.value.func.id in ("set", "list", "dict") and not a.value.args and not a.value.keywords)
+                      and isinstance(b, ast.Assign) and len(b.targets) == 1 and isinstance(b.targets[0], (ast.Subscript, ast.Attribute)) and _pure(b.targets[0])
+                      and isinstance(b.value, ast.Name) and b.value.id == a.targets[0].id)
+                if ok:
+                    x = a.targets[0].id
+                    chain = b.targets[0]
+                    names_in_chain = {y.id for y in ast.walk(chain) if isinstance(y, ast.Name)}
+                    later_nodes = [y for s2 in lst[i + 2:] for y in ast.walk(s2)]
+                    rebinds = any(isinstance(y, ast.Name) and y.id in names_in_chain and not isinstance(y.ctx, ast.Load) for y in later_nodes)
+                    all_loads = [y for y in own if isinstance(y, ast.Name) and y.id == x and isinstance(y.ctx, ast.Load)]
+                    later_ids = {id(y) for y in later_nodes}
+                    if stores.get(x, 0) == 1 and x not in nested_loads and x not in names_in_chain and not rebinds \
+                            and all(id(y) in later_ids or y is b.value for y in all_loads):
+                        class R(ast.NodeTransformer):
+                            def visit_Name(self, node):
+                                if node.id == x and isinstance(node.ctx, ast.Load):
+                                    c = copy.deepcopy(chain)
+                                    c.ctx = ast.Load()
+                                    return ast.copy_location(c, node)
+                                return node
+                        for j in range(i + 2, len(lst)):
+                            lst[j] = R().visit(lst[j])
+                        b.value = a.value
+                        del lst[i]
+                        n += 1
+                        continue
+                i += 1
+    return n
